@@ -583,10 +583,13 @@ def run_procs_case(case):
                 obs = res
             elif kind == 'spawn':             # proxy k (the parent's) is a Process argument of a
                 _, k, pid = op                # spawn-context child: RebuildProxy(incref=False)
+                if k >= len(handles) or handles[k] != 10:
+                    raise RuntimeError('spawn: proxy %d is not the parent\'s' % k)
                 sctx = billiard.get_context('spawn')      # + after-fork hook in the child
                 a, b = sctx.Pipe(duplex=True)
                 inh = [mine[local_index(k)]]
-                pr = sctx.Process(target=worker_main, args=(b, inh))
+                import mgr_driver             # spawn targets must live in an importable module
+                pr = sctx.Process(target=mgr_driver.worker_main, args=(b, inh))
                 pr.daemon = True
                 pr.start()
                 del inh[:]                    # (billiard keeps Process._args alive in the parent)
